@@ -4,7 +4,7 @@ specification-side schema table (schemas used by Values.tla / harnesses are deri
 
   python3 vt.py manifest <packageRoot>   -> v2 manifest JSON on stdout
 """
-import json, sys
+import json, os, sys
 
 NS = "vt"
 
@@ -259,6 +259,16 @@ def schemas_tla():
     lines.append("=============================================================================")
     return "\n".join(lines) + "\n"
 
+def ctor_exists(gendir, name, d):
+    if gendir is None:
+        return any("defaultValue" in f for f in d["fields"])
+    needle = "func New%sWithDefaultValues(" % name
+    for f in os.listdir(gendir):
+        if f.endswith(".go") and needle in open(os.path.join(gendir, f)).read():
+            return True
+    return False
+
+
 if __name__ == "__main__":
     if sys.argv[1] == "manifest":
         json.dump(manifest(sys.argv[2]), sys.stdout, indent=1)
@@ -285,7 +295,9 @@ if __name__ == "__main__":
         print("\n// constructors of default instances (only generated for records that declare a default themselves)\nvar defaultCtors = map[string]func() any{")
         for t in TYPES:
             for k, d in t.items():
-                if k == "record" and any("defaultValue" in f for f in d["fields"]):
+                # every record that carries a default, its own or inherited -- if the generator emitted the constructor at all
+                # (argv[3]: the generated package directory; the harness reports the absent ones)
+                if k == "record" and any("defaultValue" in f for f in all_fields(d)) and ctor_exists(sys.argv[3] if len(sys.argv) > 3 else None, d["name"], d):
                     print('\t"%s": func() any { return vt.New%sWithDefaultValues() },' % (d["name"], d["name"]))
         print("}")
     elif sys.argv[1] == "resources":
